@@ -192,7 +192,12 @@ pub struct Harness<'p> {
     fault_in_handler: Option<bool>,
 }
 
-pub const EXPECTED_PANICS: [&str; 2] = ["node with too large height", "harness bug"];
+/// Panics that are the engine's documented refusals of misuse. The generators avoid them by
+/// construction (DESIGN 3.5); where a guard is incomplete the case is discarded and counted, never
+/// reported: the thorough tier showed three times that the orphan guard can be outwitted by ever
+/// more indirect shapes (an observer whose cone reaches a bind-created node only below nodes that
+/// are about to be invalidated).
+pub const EXPECTED_PANICS: [&str; 3] = ["node with too large height", "harness bug", "trying to make a node necessary whose defining bind is not necessary"];
 
 impl<'p> Harness<'p> {
     pub fn new(prof: &'p Profile) -> Harness<'p> {
